@@ -223,3 +223,127 @@ Theorem C17_mode_tempered_rule_differs :
     map snd out = [vals cl] /\ map snd out' = [vals cl'] /\ (mode_loss cl < mode_loss cl')%Q.
 Proof. exact tempered_selection_differs. Qed.
 Print Assumptions C17_mode_tempered_rule_differs.
+
+(** * The chain is generated by the model (extension): sweep of C03 individual steps at the C19 temperature and proposal scale.
+    Api/PersonalizeChain.v; [gen_*] of GenC17Chain.v are regenerated from mcmc.py / gibbs.py / algo_with_samplers.py on every run. *)
+From Coq Require Import Permutation Qreals.
+From Leaspy Require Import Sampler.SamplerModel Saem.Anneal Sampler.AdaptiveStd Api.PersonalizeChain Api.PersonalizeChainProofs Api.PersonalizeChainTie.
+From LeaspyGen Require Import GenC17Chain.
+
+(** (a) Refinement.  For every run of the composed model on rational inputs — whatever the decision rule, the oracles, the
+    schedule, the tape — the chain it generates has one draw per iteration and [history] of the existing model applied to it is
+    exactly what the run appended to the three histories.  [chain_q (o_all o)] is a DEFINED chain: C17_mode, C17_mean,
+    C17_kept_draws, C17_mode_ignores_temperature ... apply to it without any hypothesis on the chain. *)
+Theorem C17_chain_history :
+  forall add mul ofQ decide att regv regsum scf acf nb random_order n_ind orders init scales tp o,
+    personalize_run Q add mul ofQ decide att regv regsum scf acf nb random_order n_ind orders init scales tp = Done o ->
+    length (o_all o) = length orders /\
+    history (chain_q (o_all o)) (Z.of_nat (length orders)) nb = map (map cell_q) (o_hist o).
+Proof. exact generated_history. Qed.
+Print Assumptions C17_chain_history.
+
+(** ... for instance mode_posterior end to end: the returned row of individual i is the state, after the sweep of a kept iteration k,
+    that the composed run generated, of minimal untempered attachment + regularity among the kept iterations (first such). *)
+Theorem C17_chain_mode :
+  forall decide att regv regsum scf acf nb random_order orders init scales tp ids o out,
+    runQ decide att regv regsum scf acf nb random_order ids orders init scales tp = Done o ->
+    chain_mode decide att regv regsum scf acf nb random_order orders init scales tp ids = Done (Personalize.Ok out) ->
+    let c := chain_q (o_all o) in let n := Z.of_nat (length orders) in
+    history c n nb = map (map cell_q) (o_hist o) /\ aligned ids out /\
+    forall i, (i < length ids)%nat -> exists k cl,
+       kept n nb k /\ nth_error (c k) i = Some cl /\ nth_error (map snd out) i = Some (vals cl) /\
+       (forall k' cl', kept n nb k' -> nth_error (c k') i = Some cl' -> (mode_loss cl <= mode_loss cl')%Q) /\
+       (forall k' cl', kept n nb k' -> (k' < k)%Z -> nth_error (c k') i = Some cl' -> (mode_loss cl < mode_loss cl')%Q).
+Proof.
+  intros until out. intros Hr Hm. unfold chain_mode in Hm. rewrite Hr in Hm. simpl in Hm. inversion Hm as [Hm']; clear Hm.
+  split; [exact (proj2 (generated_history _ _ _ _ _ _ _ _ _ _ _ _ _ _ _ _ _ Hr))|]. exact (C17_mode _ _ _ _ _ Hm').
+Qed.
+Print Assumptions C17_chain_mode.
+
+(** (b) The run is a chain of sampler calls: the calls of iteration m+1 run at [temp_inv] of the C19 schedule after m updates
+    ([state_at]), each is a step of the model ([step_ok]) at the scale it names, each starts where the previous one stopped, and
+    the draw of the chain at iteration k is what the state reads as after the last call of iteration k ([trace_ok]). *)
+Theorem C17_chain_steps :
+  forall A add mul ofQ decide att regv regsum scf acf nb random_order n_ind orders init scales tp o,
+    personalize_run A add mul ofQ decide att regv regsum scf acf nb random_order n_ind orders init scales tp = Done o ->
+    exists a0, init_anneal acf = Anneal.Ok a0 /\
+      map fst (o_trace o) = iterations (Z.of_nat (length orders)) /\
+      trace_ok A add mul ofQ decide att regv regsum acf n_ind 1 a0 init tp (o_trace o) (o_all o) (r_vals (o_rs o)) (r_tape (o_rs o)) /\
+      Forall (fun kl => exists m a, fst kl = Z.of_nat (S m) /\ state_at acf m = Anneal.Ok a /\
+                          Forall (fun r => sr_tinv r = temp_inv a /\ step_ok A add mul ofQ decide att regv r) (snd kl)) (o_trace o).
+Proof. exact run_steps. Qed.
+Print Assumptions C17_chain_steps.
+
+(** One call of a rational run: every row after the call is the previous row or the proposed one (previous + std * normal, by
+    C03_rows_only on [add_noise_rows]); row j is the proposal exactly when u_j < exp(-D_j) with D_j the change of attachment plus
+    the inverse-temperature-weighted change of the variable's own regularity; one uniform per individual and one normal per
+    coordinate are consumed whatever the decisions. *)
+Theorem C17_chain_decision :
+  forall add mul att regv v tinv sds st tp st' tp' acc,
+    gstep Q add mul decideQR att regv v tinv sds st tp = Some (st', tp', acc) ->
+    exists rows rows',
+      nth_error st v = Some (Nd rows) /\
+      add_noise_rows add mul sds rows (normals tp) = Some (rows', normals tp') /\
+      st' = set_nth v (Nd (gmix Q acc rows rows')) st /\
+      length acc = length rows /\ length rows' = length rows /\
+      uniforms tp' = skipn (length rows) (uniforms tp) /\ normals tp' = skipn (size (Nd rows)) (normals tp) /\
+      (forall j o n b, nth_error rows j = Some o -> nth_error rows' j = Some n -> nth_error acc j = Some b ->
+         nth_error (gmix Q acc rows rows') j = Some (if b then n else o)) /\
+      (forall j u a b c d,
+         nth_error (uniforms tp) j = Some u ->
+         nth_error (att st) j = Some a -> nth_error (att (set_nth v (Nd rows') st)) j = Some b ->
+         nth_error (regv v st) j = Some c -> nth_error (regv v (set_nth v (Nd rows') st)) j = Some d ->
+         exists dj, nth_error acc j = Some dj /\
+           (dj = true <-> (Q2R u < exp (- ((Q2R b - Q2R a) + Q2R tinv * (Q2R d - Q2R c))))%R)).
+Proof. exact gstep_decision_Q. Qed.
+Print Assumptions C17_chain_decision.
+
+(** On the reals the call IS C03's [ind_step] for that variable (so C03_ind_decision, C03_own_row, C03_draws_ind apply). *)
+Theorem C17_chain_step_is_C03 :
+  forall att regv v tinv sds st tp x, nth_error st v = Some x ->
+    gstep R Rplus Rmult decideR att regv v tinv sds st tp =
+    match ind_step (fun y => att (set_nth v y st)) (fun y => regv v (set_nth v y st)) tinv sds x tp with
+    | Some (y, tp', acc) => Some (set_nth v y st, tp', acc)
+    | None => None
+    end.
+Proof. exact gstep_is_ind_step. Qed.
+Print Assumptions C17_chain_step_is_C03.
+
+(** (c) Draws: the whole personalisation consumes n_iter x (one uniform per individual and variable) uniforms and
+    n_iter x (one normal per coordinate) normals, whatever the data, the parameters, the temperatures, the scales, the decisions
+    and the order of the variables; shapes are kept.  Hence two runs on the same tape leave it in the same place. *)
+Theorem C17_chain_draws :
+  forall A add mul ofQ decide att regv regsum scf acf nb random_order n_ind orders init scales tp o,
+    (random_order = true -> Forall (fun od => Permutation od (seq 0 (length init))) orders) ->
+    personalize_run A add mul ofQ decide att regv regsum scf acf nb random_order n_ind orders init scales tp = Done o ->
+    uniforms (r_tape (o_rs o)) = skipn (length orders * per_sweep_uniforms A init) (uniforms tp) /\
+    normals (r_tape (o_rs o)) = skipn (length orders * per_sweep_normals A init) (normals tp) /\
+    sig A (r_vals (o_rs o)) = sig A init.
+Proof. exact run_draws. Qed.
+Print Assumptions C17_chain_draws.
+
+(** Tie: the statement list of the iteration loop, what is appended to which history, the temperature handed to the samplers, the
+    order of the initialisation calls and of the effects of IndividualGibbsSampler.sample, the scale factor — regenerated from
+    the source — are the model's; the run interpreting the regenerated list is the model's run; the shipped defaults of
+    mean_/mode_posterior create no population sampler (the only `put` of a run is on the sampled individual variable). *)
+Theorem C17_chain_tie :
+  gen_iteration_body = iteration_body /\
+  (gen_record_reads = record_reads /\ gen_sweep_temperature = sweep_temperature /\ gen_init_calls = init_calls /\
+   gen_sample_effects = sample_effects /\ gen_ind_scale_factor = ind_scale_factor /\
+   gen_no_population_sampler = ["mean_posterior"; "mode_posterior"]%string) /\
+  (forall A add mul ofQ decide att regv regsum scf acf nb random_order n_ind,
+     personalize_run_with A add mul ofQ decide att regv regsum scf acf nb random_order n_ind gen_iteration_body
+     = personalize_run A add mul ofQ decide att regv regsum scf acf nb random_order n_ind).
+Proof. split; [exact tie_iteration_body | split; [exact tie_skeleton | exact tie_run]]. Qed.
+Print Assumptions C17_chain_tie.
+
+(** Non-vacuity of the hypotheses above: a 3-iteration shuffled run of two variables under a 3-plateau annealing (1/3, 1/2, 1)
+    whose proposal scales adapted, consuming the whole tape. *)
+Theorem C17_chain_example :
+  exists o, ex_run = Done o /\ length (o_all o) = 3%nat /\ length (o_hist o) = 2%nat /\
+            normals (r_tape (o_rs o)) = [] /\ uniforms (r_tape (o_rs o)) = [] /\
+            map (fun kl => map (fun r => Qred (sr_tinv r)) (snd kl)) (o_trace o) = [[1 # 3; 1 # 3]; [1 # 2; 1 # 2]; [1; 1]] /\
+            map (fun s => map Qred (std s)) (r_samp (o_rs o)) = [[9 # 20; 11 # 20]; [11 # 10; 11 # 10]] /\
+            Forall (fun od => Permutation od (seq 0 (length ex_init))) ex_orders.
+Proof. exact ex_run_done. Qed.
+Print Assumptions C17_chain_example.
